@@ -90,9 +90,14 @@ def render_sec_group(rng, nums, kind, word=None):
     pl = ''
     if w in ('Section', 'Sec', 'Sect') and rng.random() < 0.6:
         pl = 's'
+    # The library reads these words without regard to case; every tenth
+    # word comes capitalised or in upper case, the keyword likewise.
+    def recase(x):
+        r = rng.random()
+        return x.upper() if r < 0.05 else x.title() if r < 0.10 else x
     if kind == 'and':
-        return f"{w}{pl}{sp}{nums[0]}{rng.choice(AND_WORDS)}{nums[1]}"
-    return f"{w}{pl}{sp}{nums[0]}{rng.choice(THRU_WORDS)}{nums[-1]}"
+        return f"{w}{pl}{sp}{nums[0]}{recase(rng.choice(AND_WORDS))}{nums[1]}"
+    return f"{w}{pl}{sp}{nums[0]}{recase(rng.choice(THRU_WORDS))}{nums[-1]}"
 
 
 def gen_abstract(rng, max_groups=3, max_secs=3, block_kinds=B.BLOCK_KINDS,
